@@ -204,6 +204,9 @@ def E2_graph_circuit(rep, flow: Flow):
             except CERaise as ex:
                 rep.finding("E2", f"to_circuit:{nv}:{edges}", f"graph.py Graph.to_circuit for edges {edges} on {nv} vertices raises {ex.etype}: {ex.msg[:80]}")
                 continue
+            if not isinstance(rec, Recorder):
+                rep.finding("E2", f"to_circuit:{nv}:{edges}", f"graph.py Graph.to_circuit for edges {edges} on {nv} vertices returns {rec!r}, not a circuit")
+                continue
             hs, czs = set(), set()
             other = []
             for ent in rec.log:
@@ -317,15 +320,15 @@ def _eye(n):
     return Mat([[int(i == j) for j in range(n)] for i in range(n)], 2)
 
 
-def _k6_judge(rep, nq, coef, cs, res):
+def _k6_judge(rep, nq, coef, cs, res, tag=""):
     combs = [[sum(coef[4 * q + k] * cs[k][j] for k in range(4)) % 2 for j in range(4)] for q in range(nq)]
     dets = [(c[0] * c[3] - c[1] * c[2]) % 2 for c in combs]
-    key = f"coef:{nq}:{''.join(map(str, coef))}"
+    key = f"coef:{nq}:{''.join(map(str, coef))}" + (":" + tag.split(" ")[0] if tag else "")
     if res is None:
         if all(d == 1 for d in dets):
             rep.finding("K6", key, f"find_local_clifford_layer.py find_local_clifford_layer: coefficient pattern {list(coef)} ({nq} qubit(s)) combines to the invertible block(s) {combs} but is rejected by the validity filter (a valid layer is missed)")
         else:
-            rep.ok("K6", 1, nontrivial=(nq, coef))
+            rep.ok("K6", 1, nontrivial=(nq, coef, tag))
         return
     ok_shape = isinstance(res, (list, tuple)) and len(res) == 4 and all(isinstance(m, Mat) and m.shape == (nq, nq) for m in res)
     if not ok_shape:
@@ -338,7 +341,7 @@ def _k6_judge(rep, nq, coef, cs, res):
     elif blocks != combs or any(off):
         rep.finding("K6", key, f"find_local_clifford_layer.py find_local_clifford_layer: pattern {list(coef)} returns blocks {blocks} (off-diagonal {off}), the combination of the basis blocks is {combs}")
     else:
-        rep.ok("K6", 1, nontrivial=(nq, coef), sample=f"{list(coef)} -> blocks {blocks} (det 1)")
+        rep.ok("K6", 1, nontrivial=(nq, coef, tag), sample=f"{list(coef)} -> blocks {blocks} (det 1)")
 
 
 def _k6_by_kernel_stub(rep, flow):
@@ -352,7 +355,7 @@ def _k6_by_kernel_stub(rep, flow):
         raise AnalysisError(f"{FLC}: expected exactly one kernel routine (null_space) among its callees, found {[g.fq for g in ns]}")
     ce = CE(prog, max_steps=400_000_000)
 
-    def verdict(nq, coef):
+    def verdict(nq, coef, m=None):
         calls = []
 
         def stub(*a, **k):
@@ -361,7 +364,12 @@ def _k6_by_kernel_stub(rep, flow):
         ce.stubs = {ns[0].fq: stub}
         g = _graph(ce, prog, nq, [])
         # operators X_q: every qubit is acted on (a search that leaves untouched qubits out sees all of them)
-        res = ce.call_func(f, [_eye(nq), Mat.zeros((nq, nq)), g], {})
+        if m is None:
+            R, S = _eye(nq), Mat.zeros((nq, nq))
+        else:
+            # fewer operators than qubits (n x m matrices, one column per operator): X on every qubit, m times
+            R, S = Mat([[1] * m for _ in range(nq)], 2), Mat.zeros((nq, m))
+        res = ce.call_func(f, [R, S, g], {})
         if len(calls) != 1:
             # the answer did not come out of the kernel (a fast path, a second solve ...): the stub decides nothing
             raise consteval.Unsupported(f"the search consulted the kernel routine {len(calls)} time(s) on the probe input, expected once")
@@ -411,6 +419,15 @@ def _k6_by_kernel_stub(rep, flow):
     for nq in (1, 2):
         for coef in itertools.product((0, 1), repeat=4 * nq):
             _k6_judge(rep, nq, coef, cs, verdict(nq, coef))
+    # a set of FEWER operators than qubits (the property's "or fewer operators"): same verdicts, no exception
+    for coef in itertools.product((0, 1), repeat=8):
+        try:
+            res = verdict(2, coef, m=1)
+        except CERaise as ex:
+            # the same code answered every full-size probe above: the exception belongs to the smaller operator set
+            rep.finding("K6", f"partial:raise:{ex.etype}", f"{ex.where or 'find_local_clifford_layer.py find_local_clifford_layer'}: raises {ex.etype} ({ex.msg[:80]}) for a set of 1 operator on 2 qubits (R, S of shape 2x1) - the search must also serve fewer operators than qubits")
+            break
+        _k6_judge(rep, 2, coef, cs, res, tag="partial set (1 operator on 2 qubits)")
     rep.analysed["K6 form"] = f"whole-function evaluation with {ns[0].fq} stubbed ({ce.steps} evaluation steps)"
     flow._k6_stub = (cs, ce, f, ns[0].fq)
 
@@ -751,7 +768,7 @@ def K10_K11_codec(rep, flow: Flow, tier):
     g = _graph(ce, prog, 5, ex_edges)
     got = ce.call_func(comp, [g], {})
     if got != 0b0110011011:
-        rep.finding("K10", "compress:doc-example", f"graph.py Graph.compress: the docstring's 5x5 example compresses to {bin(got)}, documented 0b0110011011")
+        rep.finding("K10", "compress:doc-example", f"graph.py Graph.compress: the docstring's 5x5 example compresses to {bin(got) if isinstance(got, int) else repr(got)}, documented 0b0110011011")
     else:
         rep.ok("K10", 1, nontrivial="doc-example", sample="docstring example -> 0b0110011011")
     _k11_primitives(rep, prog, gc)
